@@ -82,12 +82,37 @@ func genC14Case(t *rapid.T) C14Case {
 	case "select", "point", "range", "refresh", "version", "changes", "create":
 		c.RO = rapid.IntRange(0, 2).Draw(t, "ro") != 0
 	}
+	if c.Target == "vacuum" && rapid.IntRange(0, 2).Draw(t, "vacshape") != 0 {
+		// the shape in which the protection walk of a vacuum matters: a populated multi-node
+		// table, rows deleted before the cutoff (the vacuum rewrites part of the tree), and
+		// (below) a late writer whose unmerged version still shares the old nodes
+		c.Prefix.EPN = rapid.SampledFrom([]int{2, 3, 4}).Draw(t, "vacepn")
+		c.Prefix.NKeys = 16
+		fill := Stmt{Kind: "ins", Cols: []string{"a"}, T: -10}
+		for i, k := range intKeys(16) {
+			fill.Keys = append(fill.Keys, k)
+			fill.Vals = append(fill.Vals, []Val{vInt(int64(i % 3))})
+		}
+		steps := []MWStep{{Op: "stmt", W: 0, Stmts: []Stmt{fill}}}
+		steps = append(steps, c.Prefix.Steps...)
+		nd := rapid.IntRange(1, 3).Draw(t, "vacdels")
+		for i := 0; i < nd; i++ {
+			k := rapid.SampledFrom(intKeys(16)).Draw(t, "vacdelkey")
+			steps = append(steps, MWStep{Op: "stmt", W: 0, Stmts: []Stmt{{Kind: "del", Keys: []Val{k}, T: int64(40*256 + i)}}})
+		}
+		c.Prefix.Steps = steps
+		c.Cut = -1
+		c.Key = rapid.SampledFrom(intKeys(16)).Draw(t, "vackey")
+	}
 	c.Reread = c.Target != "vacuum" && rapid.IntRange(0, 2).Draw(t, "reread") == 0
 	c.NoRefresh = (c.Target == "write" || c.Target == "txn" || c.Target == "vacuum") && rapid.Bool().Draw(t, "norefresh")
 	if c.Target == "vacuum" || rapid.IntRange(0, 3).Draw(t, "withLate") == 0 {
 		lcfg := cfg
 		lcfg.multiRow = false
 		l := genStmt(t, lcfg, "late")
+		if c.Target == "vacuum" && c.Prefix.NKeys == 16 && rapid.Bool().Draw(t, "lateupd") {
+			l = Stmt{Kind: "upd", Keys: []Val{rapid.SampledFrom(intKeys(16)).Draw(t, "latekey")}, Cols: []string{"b"}, Vals: [][]Val{{vInt(1)}}}
+		}
 		l.T = int64(50 * 256)
 		c.Late = &l
 	}
